@@ -160,6 +160,24 @@ func (c *c06) famLengths() {
 		}
 		return core.Hex8(o)
 	})
+	// the remaining constructors of the exported API
+	{
+		u := uint64(t.W(1<<30))<<34 | uint64(t.W(1<<30))
+		c.op("scalar.SetUint64", "%d -> %s vs NewFromUint64 %s", u, c06hs(scalar.New().SetUint64(u)), c06hs(scalar.NewFromUint64(u)))
+		p, rp := c.ed(), c.ris()
+		cy, cr, mp := curve.NewCompressedEdwardsY(), curve.NewCompressedRistretto(), curve.NewMontgomeryPoint()
+		c.op("curve.New*(zero values)", "-> %s %s %s", core.Hex8(cy[:]), core.Hex8(cr[:]), core.Hex8(mp[:]))
+		cy.SetEdwardsPoint(p)
+		cr.SetRistrettoPoint(rp)
+		mp.SetEdwards(p)
+		c.op("curve.New*(set)", "%s %s -> %s %s %s", c06he(p), c06hr(rp), core.Hex8(cy[:]), core.Hex8(cr[:]), core.Hex8(mp[:]))
+		xk, err := x25519.GeneratePrivateKey(c.rd())
+		if err != nil {
+			c.op("x25519.GeneratePrivateKey", "-> err")
+		} else {
+			c.op("x25519.GeneratePrivateKey", "-> %s public %s", core.Hex8(xk[:]), core.Hex8(xk.Public()[:]))
+		}
+	}
 	try("len.x25519.X25519(point)", 32, func(b []byte) string {
 		k := c.g.Bytes(32)
 		o, err := x25519.X25519(k, b)
